@@ -247,7 +247,7 @@ def suite_reuse(rng, tier):
              # header extensions on the paths that also drive the re-use state: broadcast / explicit re-use /
              # other label through encap_ext, complete or fragmented
              ("send", LBL_BC, "ext"), ("send", LBL_RU, "ext"), ("send", LBL_B6, "ext"), ("send", LBL_BC, "extsmall"),
-             ("send", LBL_A6, "extfrag"), ("send", LBL_BC, "extfrag")]
+             ("send", LBL_A6, "extfrag"), ("send", LBL_BC, "extfrag"), ("send", LBL_Z6, "ext"), ("send", LBL_Z6, "extfrag")]
     depth = 3
     seqs = list(itertools.product(alpha, repeat=depth)) if tier != "quick" else []
     nrand = 1500 if tier == "quick" else 25000
@@ -475,6 +475,32 @@ def suite_decapfuzz(rng, tier):
                         for cut in range(2, len(pk)):
                             s.decap("h:" + pk[:cut].hex())
         out.append(s)
+    # the same chains cut short INSIDE the packet (the GSE length agrees with the buffer, the chain runs past
+    # the end of the packet), arriving while the receiver remembers a label: every such rejection is made by the
+    # extension walker, not by the length guards, and the label memory afterwards is part of the comparison
+    s = Session("fz-extcut")
+    s.dec_new(2, 16, None)
+    for _ in range(3):
+        s.prov(16, 0)
+    for ch in chains:
+        body = b"".join(bytes([i >> 8, i & 0xFF]) + d for i, d in ch) + b"\x08\x00" + b"\xd1\xd2\xd3"
+        for cut in range(1, len(body) + 1):
+            for hdr, pre in ((0xe0, b""), (0xd0, b"\x01\x02\x03"), (0xa0, bytes([1, 0, 40]))):
+                if hdr == 0xd0:
+                    # complete packet with a 3-byte label: the label comes AFTER the type field
+                    pk = bytes([0xd0, (len(body[:2]) + 3 + len(body[2:cut])) & 0xFF]) + body[:2] + pre + body[2:cut] if cut >= 2 else None
+                elif hdr == 0xe0:
+                    pk = bytes([0xe0, cut]) + body[:cut]
+                else:
+                    pk = bytes([0xa0, 3 + cut]) + pre + body[:cut]
+                if pk is None:
+                    continue
+                s.decap("h:c00a0800616263646566beef")        # the receiver remembers a label again
+                s.prov(16, 0)
+                s.decap("h:" + pk.hex())
+                s.decap("h:f0050800aabbcc")                  # a re-use packet: resolved against what is remembered now
+                s.prov(16, 0)
+    out.append(s)
     # random and mutated-valid packets
     for r in range(40 if tier == "quick" else 600):
         st = rng.choice(STATES)
@@ -1244,6 +1270,9 @@ def suite_extlattice(rng, tier):
         [(0x0203, b"\x09\x09"), (0x0081, b"")], [(0x0090, b"\x01\x02")], [(0x0081, b"")],
         [(0x0042, b"xyz"), (0x0301, bytes(4)), (0x0055, b"12345"), (0x0090, b"zz")],
         [(0x0042, bytes(4000))], [(0x0042, bytes(4086))], [(0x0042, bytes(5000))],
+        # first-fragment header of exactly 4095 / 4096 bytes of GSE length (5 + label + extensions): the largest
+        # header that still fits carries no payload, one more byte must be refused
+        [(0x0042, bytes(4088))], [(0x0042, bytes(4089))], [(0x0042, bytes(4082))], [(0x0042, bytes(4083))],
     ]
     mgr = {0x42: ("N", 3), 0x43: ("N", 0), 0x81: ("F", 0), 0x90: ("F", 2), 0x55: ("N", 5)}
     for ch in chains:
@@ -1257,6 +1286,8 @@ def suite_extlattice(rng, tier):
                                        base - pl + 4, 4097, 70000]))
                     if tier == "quick":
                         bufs = rng.sample(bufs, 5)
+                    if 4080 <= extlen <= 4095:
+                        bufs = sorted(set(bufs + [4097, 4100, 5000, 70000]))
                     for bl in bufs:
                         if bl < 0:
                             continue
@@ -1279,6 +1310,19 @@ def suite_extlattice(rng, tier):
                         j = s.encap_frag(bs_gen(n, pl), s.ops[i]["reg"], bs_zero(4200), cout=s.ops[i]["reg"])
                         s.decap_if("p:%d" % s.ops[j]["reg"], of=j)
                         out.append(s)
+    # the mandatory rejections of encap_ext (zero 6-byte label and its neighbours, explicit re-use with and
+    # without something to re-use, protocol types in the refused range) on every chain shape
+    from suites import LBL_Z6, TRICKY_LABELS
+    for ci, ch in enumerate(chains[:12]):
+        last = ch[-1][0]
+        for lab in [LBL_Z6, LBL_RU, LBL_A3] + list(TRICKY_LABELS):
+            for pt in (0x0800, last if last < 0x100 else 0x0081, 0x0100, 0x05FF):
+                for prior in (False, True):
+                    s = Session("extrej%d" % n)
+                    n += 1
+                    s.strict = False
+                    mini_transfer(s, rng, bs_gen(n, 9), 2, pt, lab, 64, exts=ch, mgr=dict(mgr), prior=LBL_A3 if prior else None)
+                    out.append(s)
     return out
 
 
